@@ -618,16 +618,31 @@ def list_content(fi: FuncInfo, receiver: str, limit=4000):
     return [(sp.condition(), path_items(sp, receiver), sp) for sp in symex.func_sym_paths(fi, limit)]
 
 
-def path_items(sp, receiver: str):
-    """What the list named `receiver` holds at the end of one path (see list_content)."""
+def path_items(sp, receiver: str, upto=None):
+    """What the list named `receiver` holds at the end of one path (see list_content); `upto`: only the first events."""
     items = [('copy', ast.parse(receiver, mode='eval').body)]
     in_loop = 0
-    for e in sp.events:
+    for i_ev, e in enumerate(sp.events if upto is None else sp.events[:upto]):
         n = e.node
         if isinstance(n, (ast.Assign, ast.AnnAssign)) and e.kind in ('assign', 'store'):
             tg = n.targets if isinstance(n, ast.Assign) else [n.target]
             if any(src(t) == receiver for t in tg):
                 items = items_of(e.expr)
+                # two-phase construction `xs = [F(v) for v in ys]` over a local list `ys` filled piece by piece on this path:
+                # the pieces of ys, each mapped through F
+                if len(items) == 1 and items[0][0] == 'many' and not items[0][3] \
+                        and isinstance(n.value, (ast.ListComp, ast.GeneratorExp)) and len(n.value.generators) == 1 \
+                        and isinstance(n.value.generators[0].target, ast.Name) and isinstance(n.value.generators[0].iter, ast.Name) \
+                        and not n.value.generators[0].ifs:
+                    var = n.value.generators[0].target.id
+                    inner = path_items(sp, n.value.generators[0].iter.id, upto=i_ev)
+                    if inner and all(k[0] in ('one', 'many') for k in inner):
+                        from .guards import substitute
+                        mapped = []
+                        for k in inner:
+                            el = substitute(clone(items[0][1]), {var: k[1]}, recursive=False)
+                            mapped.append(('one', el) if k[0] == 'one' else ('many', el, k[2], k[3]))
+                        items = mapped
         elif isinstance(n, ast.AugAssign) and src(n.target) == receiver and isinstance(n.op, ast.Add):
             v = e.expr.right if isinstance(e.expr, ast.BinOp) and e.kind == 'assign' else e.expr
             items = items + items_of(v)
